@@ -6,7 +6,7 @@ From Coq Require Import ZifyBool.
 
 (* --- write pipeline ------------------------------------------------------ *)
 Lemma stage_admit_sound a b c cost rem :
-  gen_stage_admit a b c cost rem = true -> a + b + c = 0 \/ cost < rem.
+  gen_stage_admit a b c cost rem = true -> a + b + c = 0 \/ cost <= rem.
 Proof. unfold gen_stage_admit. lia. Qed.
 
 Lemma stage_admit_when_idle a b c cost rem :
@@ -49,7 +49,7 @@ Proof. unfold gen_write_phase2_continue. lia. Qed.
 
 (* --- read pipeline -------------------------------------------------------- *)
 Lemma read_admit_sound a c cost rem :
-  gen_read_admit a c cost rem = true -> a + c = 0 \/ cost < rem.
+  gen_read_admit a c cost rem = true -> a + c = 0 \/ cost <= rem.
 Proof. unfold gen_read_admit. lia. Qed.
 
 Lemma read_admit_when_idle a c cost rem : a + c = 0 -> gen_read_admit a c cost rem = true.
